@@ -186,7 +186,19 @@ func applySplitting(ssaFunc *ssa.Function, obfRand *mathrand.Rand) bool {
 		return false
 	}
 
-	splitIdx := 1 + obfRand.Intn(len(targetBlock.Instrs)-2)
+	// Phis must stay at the start of the block their edges were built for.
+	phiCount := 0
+	for _, instr := range targetBlock.Instrs {
+		if _, ok := instr.(*ssa.Phi); !ok {
+			break
+		}
+		phiCount++
+	}
+	firstIdx := max(1, phiCount)
+	if len(targetBlock.Instrs)-1-firstIdx <= 0 {
+		return false
+	}
+	splitIdx := firstIdx + obfRand.Intn(len(targetBlock.Instrs)-1-firstIdx)
 
 	firstPart := make([]ssa.Instruction, splitIdx+1)
 	copy(firstPart, targetBlock.Instrs)
@@ -206,11 +218,15 @@ func applySplitting(ssaFunc *ssa.Function, obfRand *mathrand.Rand) bool {
 		setBlock(instr, newBlock)
 	}
 
-	// Fix preds for ssa.Phi working
-	for _, succ := range targetBlock.Succs {
-		for i, pred := range succ.Preds {
+	// Fix preds for ssa.Phi working: the value of a phi is assigned at the end of
+	// the predecessor recorded for its edge, which must now be the second part,
+	// as that is where the values used by the edge are computed.
+	// Junk and trash blocks are inserted on an edge without touching the preds of
+	// its target, so the blocks to fix are not only the direct successors.
+	for _, block := range ssaFunc.Blocks {
+		for i, pred := range block.Preds {
 			if pred == targetBlock {
-				succ.Preds[i] = newBlock
+				block.Preds[i] = newBlock
 			}
 		}
 	}
